@@ -295,10 +295,6 @@ Definition layer_safeb (l : layer_abs) : bool :=
   single_normalb (la_dir l) && forallb (λ g, single_normalb (g_path g)) (la_glifs l).
 Definition layers_safeb (f : font_abs) : bool := forallb layer_safeb (fa_layers f).
 
-(** the class of finding F8: some glif path taken from contents.plist, or some layer directory,
-    is not a single plain component *)
-Definition KnownClass_F8 (f : font_abs) : Prop := ¬ layers_safe f.
-
 (** the tree a font determines, relative to the target: the entries in writing order *)
 Definition rel_name (r : rel) : string := match r with [Normal s] => s | _ => "" end.
 Definition glif_entries (d : string) (g : glif_abs) : list (path * snode) :=
